@@ -27,6 +27,16 @@ func (m *Mutex) Lock() {
 	m.locked = true
 }
 
+// TryLock is a scheduling point like Lock, but never waits.
+func (m *Mutex) TryLock() bool {
+	simhook.Yield("sync.Mutex.TryLock")
+	if m.locked {
+		return false
+	}
+	m.locked = true
+	return true
+}
+
 func (m *Mutex) Unlock() {
 	if !m.locked {
 		panic("sync: unlock of unlocked mutex")
@@ -42,6 +52,24 @@ type RWMutex struct {
 func (m *RWMutex) Lock() {
 	simhook.YieldUntil("sync.RWMutex.Lock", func() bool { return !m.w && m.r == 0 })
 	m.w = true
+}
+
+func (m *RWMutex) TryLock() bool {
+	simhook.Yield("sync.RWMutex.TryLock")
+	if m.w || m.r != 0 {
+		return false
+	}
+	m.w = true
+	return true
+}
+
+func (m *RWMutex) TryRLock() bool {
+	simhook.Yield("sync.RWMutex.TryRLock")
+	if m.w {
+		return false
+	}
+	m.r++
+	return true
 }
 
 func (m *RWMutex) Unlock() {
